@@ -173,14 +173,63 @@ func (z *Decimal) scan(r io.ByteScanner, base int) (f *Decimal, b int, err error
 		return
 	}
 
-	p := new(Decimal).SetPrec(z.Prec() + _DW) // use more bits for p -- TODO(db47h) what is the right number?
-	if exp2 < 0 {
-		z.Quo(z, p.pow2(uint64(-exp2)))
-	} else {
-		z.Mul(z, p.pow2(uint64(exp2)))
+	// The exact product or quotient is out of reach (2**exp2 has far more
+	// digits than z.prec) and never has as few digits as z.prec or z.prec+1:
+	// that takes |exp2| within the bound above. So it lies strictly between
+	// two rounding boundaries, and it is enough to compute it, truncated, with
+	// guard digits from a rounded power of two, and to round that: unless
+	// the guard digits read 00..0, 99..9, 49..9 or 50..0, in which case the
+	// truncated value may lie on the other side of a boundary (a number of
+	// z.prec digits, or half-way between two) than the exact one. Then more
+	// guard digits are needed. (Rounding the power to z.prec+_DW digits and the
+	// scaled value again, as this used to do, returned a neighbour more than
+	// one unit away from the exact value in such cases, and an accuracy with
+	// the wrong sign.)
+	for guard := uint32(2 * _DW); ; guard *= 2 {
+		wp := prec + guard // (no overflow: 5*prec < |exp2| < 2**31 here)
+		t := new(Decimal).SetPrec(uint(wp)).SetMode(ToZero)
+		p := new(Decimal).SetPrec(uint(wp) + _DW)
+		if exp2 < 0 {
+			t.Quo(z, p.pow2(uint64(-exp2)))
+		} else {
+			t.Mul(z, p.pow2(uint64(exp2)))
+		}
+		if t.form != finite {
+			// overflow or underflow
+			z.form, z.acc = t.form, t.acc
+			return
+		}
+		// t is the exact value truncated to wp digits, give or take a tiny
+		// fraction of a unit of its last digit (the error of the power of two
+		// is below 10**-(wp+_DW-3), relatively).
+		if lo := uint(len(t.mant))*_DW - uint(wp); !t.mant.ambiguous(lo, uint(guard)) {
+			z.mant = z.mant.set(t.mant)
+			z.exp = t.exp
+			z.round(0)
+			return
+		}
 	}
+}
 
-	return
+// ambiguous reports whether the n digits of x starting at digit lo (counted
+// from the least significant digit of x) read 00..0, 99..9, 49..9 or 50..0.
+func (x dec) ambiguous(lo, n uint) bool {
+	first := x.digit(lo + n - 1)
+	var rest uint
+	switch first {
+	case 0, 5:
+		rest = 0
+	case 4, 9:
+		rest = 9
+	default:
+		return false
+	}
+	for i := lo; i < lo+n-1; i++ {
+		if x.digit(i) != rest {
+			return false
+		}
+	}
+	return true
 }
 
 // pow2 sets z to 2**n and returns z.
